@@ -60,6 +60,19 @@ Theorem c46_find_entry_first :
     exists a1 a2, a = a1 ++ (n, b) :: a2 /\ ~ In n (map fst a1).
 Proof. exact find_entry_spec. Qed.
 
+(* an explicit output path that already holds a file (longer, shorter, anything)
+   ends up holding exactly the entry: the result does not depend on what was
+   there *)
+Theorem c46_output_replaced :
+  forall fixed i p, run fixed (with_pre i p) = run fixed i.
+Proof. exact output_replaced. Qed.
+
+Theorem c46_bytes_over_existing :
+  forall i old b x, run true (with_pre i (Some old)) = OOk b x ->
+    exists a, first_holder (search_dirs i) (FArchive a)
+              /\ find_entry (platform_name (goos i) (goarch i)) a = Some b.
+Proof. exact bundle_bytes_over_existing. Qed.
+
 (* unknown platforms are rejected *)
 Theorem c46_unknown :
   forall i a, first_holder (search_dirs i) (FArchive a) ->
@@ -109,6 +122,8 @@ Print Assumptions c46_libexec_second.
 Print Assumptions c46_libexec_only_in_bin.
 Print Assumptions c46_bytes.
 Print Assumptions c46_find_entry_first.
+Print Assumptions c46_output_replaced.
+Print Assumptions c46_bytes_over_existing.
 Print Assumptions c46_unknown.
 Print Assumptions c46_bytes_any.
 Print Assumptions c46_check_sound.
